@@ -223,6 +223,10 @@ def with_stack_limit(margin, fn):
         sys.setrecursionlimit(old)
 
 
+def _pstr(p) -> str:
+    return str(periods.period(p))
+
+
 def has_formula(world: World, var: str, period_str: str) -> bool:
     v = world.tbs.get_variable(var)
     try:
@@ -327,6 +331,23 @@ def execute(scn, world: World, plans: dict, res: Result, *, auto_heal: bool, rec
             res.count("clause:C18.stack")
             if st["stack"] or st["cursor"] is not None or st["invalidated"]:
                 res.violate("C18.stack", step, op=do, state=st, fired=fired)
+
+            # C18.raised, for the failure nobody injected: a rule that reads itself for the
+            # period it is computed for (cyclic worlds) - the circular-definition error
+            # must reach the caller, whatever form the request was made in
+            sc = world.spec.get("self_cycle")
+            if sc and not fired and not caught and do[0] == "calculate" and do[1] == sc[0] and (do[1], _pstr(do[2])) not in before:
+                try:
+                    active = world.tbs.get_variable(sc[0]).get_formula(periods.period(do[2]))
+                except Exception:  # noqa: BLE001
+                    active = None
+                expected_name = "formula" if sc[1] == "0001-01-01" else "formula_" + sc[1].replace("-", "_")
+                if active is not None and active.__name__ == expected_name and world.var_specs[sc[0]]["unit"] != "eternity":
+                    res.count("clause:C18.raised")
+                    res.count("probe:self_reading_rule_requested")
+                    if not (failed and isinstance(out[1], of_errors.CycleError)):
+                        res.violate("C18.raised", step, op=do, fired=[], got=type(out[1]).__name__ if failed else "no exception",
+                                    what="true_cycle: " + (type(out[1]).__name__ if failed else "no exception"))
 
             # C18.raised --------------------------------------------------------
             if fired:
